@@ -41,6 +41,66 @@ pub fn run_scalars(args: &Args, mut out: Out) {
     out.finish();
 }
 
+
+/// Every conversion into a tag list -- the tuples of 0 to 20 tags (one hand-written impl each), arrays, a single tag, a
+/// vector -- keeps the tags and their order.  One `Line` event per conversion, judged like every other line.
+fn conversion_lines(out: &mut Out, sid0: u64) -> u64 {
+    let names: [&str; 20] = ["t01", "t02", "t03", "t04", "t05", "t06", "t07", "t08", "t09", "t10", "t11", "t12", "t13", "t14", "t15", "t16", "t17", "t18", "t19", "t20"];
+    let mut sid = sid0;
+    let level = Level::Info;
+    let emit = |out: &mut Out, sid: u64, how: &str, n: usize, ev: Result<LogEvent, ()>| {
+        let desc: Vec<Value> = (0..n).map(|i| json!({"name":cps(names[i]),"kind":"str","val":cps(&format!("v{i}")),"finite":true})).collect();
+        let (text, panicked) = match ev {
+            Ok(e) => {
+                let mut line = Vec::new();
+                let r = catch(|| e.write_jsonl(&mut line));
+                (String::from_utf8_lossy(&line).to_string(), r.is_err())
+            }
+            Err(()) => (String::new(), true),
+        };
+        out.ev(sid, "Reset", json!({}));
+        out.ev(sid, "Line", json!({"level":cps(&level.to_string()),"tags":desc,"out":cps(&text),"panic":panicked,"viaLog":false,"how":how}));
+    };
+    let v: Vec<Tag> = (0..20).map(|i| tag(names[i], format!("v{i}"))).collect();
+    for n in 0..=20usize {
+        sid += 1;
+        let ev = catch(|| match n {
+            0 => LogEvent::new(level, ()),
+            1 => LogEvent::new(level, (v[0].clone(),)),
+            2 => LogEvent::new(level, (v[0].clone(), v[1].clone(),)),
+            3 => LogEvent::new(level, (v[0].clone(), v[1].clone(), v[2].clone(),)),
+            4 => LogEvent::new(level, (v[0].clone(), v[1].clone(), v[2].clone(), v[3].clone(),)),
+            5 => LogEvent::new(level, (v[0].clone(), v[1].clone(), v[2].clone(), v[3].clone(), v[4].clone(),)),
+            6 => LogEvent::new(level, (v[0].clone(), v[1].clone(), v[2].clone(), v[3].clone(), v[4].clone(), v[5].clone(),)),
+            7 => LogEvent::new(level, (v[0].clone(), v[1].clone(), v[2].clone(), v[3].clone(), v[4].clone(), v[5].clone(), v[6].clone(),)),
+            8 => LogEvent::new(level, (v[0].clone(), v[1].clone(), v[2].clone(), v[3].clone(), v[4].clone(), v[5].clone(), v[6].clone(), v[7].clone(),)),
+            9 => LogEvent::new(level, (v[0].clone(), v[1].clone(), v[2].clone(), v[3].clone(), v[4].clone(), v[5].clone(), v[6].clone(), v[7].clone(), v[8].clone(),)),
+            10 => LogEvent::new(level, (v[0].clone(), v[1].clone(), v[2].clone(), v[3].clone(), v[4].clone(), v[5].clone(), v[6].clone(), v[7].clone(), v[8].clone(), v[9].clone(),)),
+            11 => LogEvent::new(level, (v[0].clone(), v[1].clone(), v[2].clone(), v[3].clone(), v[4].clone(), v[5].clone(), v[6].clone(), v[7].clone(), v[8].clone(), v[9].clone(), v[10].clone(),)),
+            12 => LogEvent::new(level, (v[0].clone(), v[1].clone(), v[2].clone(), v[3].clone(), v[4].clone(), v[5].clone(), v[6].clone(), v[7].clone(), v[8].clone(), v[9].clone(), v[10].clone(), v[11].clone(),)),
+            13 => LogEvent::new(level, (v[0].clone(), v[1].clone(), v[2].clone(), v[3].clone(), v[4].clone(), v[5].clone(), v[6].clone(), v[7].clone(), v[8].clone(), v[9].clone(), v[10].clone(), v[11].clone(), v[12].clone(),)),
+            14 => LogEvent::new(level, (v[0].clone(), v[1].clone(), v[2].clone(), v[3].clone(), v[4].clone(), v[5].clone(), v[6].clone(), v[7].clone(), v[8].clone(), v[9].clone(), v[10].clone(), v[11].clone(), v[12].clone(), v[13].clone(),)),
+            15 => LogEvent::new(level, (v[0].clone(), v[1].clone(), v[2].clone(), v[3].clone(), v[4].clone(), v[5].clone(), v[6].clone(), v[7].clone(), v[8].clone(), v[9].clone(), v[10].clone(), v[11].clone(), v[12].clone(), v[13].clone(), v[14].clone(),)),
+            16 => LogEvent::new(level, (v[0].clone(), v[1].clone(), v[2].clone(), v[3].clone(), v[4].clone(), v[5].clone(), v[6].clone(), v[7].clone(), v[8].clone(), v[9].clone(), v[10].clone(), v[11].clone(), v[12].clone(), v[13].clone(), v[14].clone(), v[15].clone(),)),
+            17 => LogEvent::new(level, (v[0].clone(), v[1].clone(), v[2].clone(), v[3].clone(), v[4].clone(), v[5].clone(), v[6].clone(), v[7].clone(), v[8].clone(), v[9].clone(), v[10].clone(), v[11].clone(), v[12].clone(), v[13].clone(), v[14].clone(), v[15].clone(), v[16].clone(),)),
+            18 => LogEvent::new(level, (v[0].clone(), v[1].clone(), v[2].clone(), v[3].clone(), v[4].clone(), v[5].clone(), v[6].clone(), v[7].clone(), v[8].clone(), v[9].clone(), v[10].clone(), v[11].clone(), v[12].clone(), v[13].clone(), v[14].clone(), v[15].clone(), v[16].clone(), v[17].clone(),)),
+            19 => LogEvent::new(level, (v[0].clone(), v[1].clone(), v[2].clone(), v[3].clone(), v[4].clone(), v[5].clone(), v[6].clone(), v[7].clone(), v[8].clone(), v[9].clone(), v[10].clone(), v[11].clone(), v[12].clone(), v[13].clone(), v[14].clone(), v[15].clone(), v[16].clone(), v[17].clone(), v[18].clone(),)),
+            20 => LogEvent::new(level, (v[0].clone(), v[1].clone(), v[2].clone(), v[3].clone(), v[4].clone(), v[5].clone(), v[6].clone(), v[7].clone(), v[8].clone(), v[9].clone(), v[10].clone(), v[11].clone(), v[12].clone(), v[13].clone(), v[14].clone(), v[15].clone(), v[16].clone(), v[17].clone(), v[18].clone(), v[19].clone(),)),
+            _ => unreachable!(),
+        });
+        emit(out, sid, "tuple", n, ev);
+    }
+    sid += 1;
+    emit(out, sid, "array3", 3, catch(|| LogEvent::new(level, [v[0].clone(), v[1].clone(), v[2].clone()])));
+    sid += 1;
+    emit(out, sid, "array7", 7, catch(|| LogEvent::new(level, [v[0].clone(), v[1].clone(), v[2].clone(), v[3].clone(), v[4].clone(), v[5].clone(), v[6].clone()])));
+    sid += 1;
+    emit(out, sid, "single", 1, catch(|| LogEvent::new(level, v[0].clone())));
+    sid += 1;
+    emit(out, sid, "vec", 20, catch(|| LogEvent::new(level, v.clone())));
+    sid
+}
+
 pub fn run_lines(args: &Args, mut out: Out) {
     let n = args.u64("n", 500);
     let mut r = args.rng();
@@ -176,5 +236,6 @@ pub fn run_lines(args: &Args, mut out: Out) {
         out.ev(sid, "Line", json!({"level":cps(&level.to_string()),"tags":desc_used,"out":cps(&text),"panic":panicked,"viaLog":via_log}));
     }
     drop(guard);
+    conversion_lines(&mut out, n);
     out.finish();
 }
